@@ -4,6 +4,7 @@ mod s_sink;
 mod dump;
 mod sig;
 mod s_enc;
+mod s_cnt;
 
 use std::io::{BufRead, Write};
 
@@ -16,6 +17,7 @@ fn run_line(line: &str) -> String {
     let r = std::panic::catch_unwind(move || match streamc.as_str() {
         "SINK" => s_sink::run(&idc, &restc),
         "ENC" => s_enc::run(&idc, &restc),
+        "CNT" => s_cnt::run(&idc, &restc),
         _ => format!("{} unknown-stream", idc),
     });
     match r { Ok(s) => s, Err(_) => format!("{} panic", id) }
@@ -32,6 +34,7 @@ fn main() {
             match stream.as_str() {
                 "SINK" => s_sink::gen(seed, n, &mut out),
                 "ENC" => s_enc::gen(seed, n, &mut out),
+                "CNT" => s_cnt::gen(seed, n, &mut out),
                 _ => panic!("unknown stream"),
             }
             print!("{}", out);
